@@ -189,7 +189,9 @@ def oracle(ctx):
         for f in fails:
             res.oracle_failures.append(dict(op='fault-run', input=c, impl_output=dict(exit=o['exit'], stderr=e2e.error_lines(o['stderr'])[:4], out=sorted(o['snap'])), oracle_expectation=f))
     # many failures in one run: the exit status must stay non-zero whatever their number is (an exit status is one byte)
-    for n_write, n_conv in ((256, 0), (1, 255), (512, 0)) if ctx.thorough else ((256, 0), (1, 255)):
+    # … and every single one of them is reported: each file that could not be written (and each unit that did not convert) is named in
+    # an error line, whether it is the first, the tenth or the two-hundredth failure of the run
+    for n_write, n_conv in ((256, 0), (1, 255), (512, 0), (12, 0), (1, 10), (3, 12), (1, 9), (2, 30)) if ctx.thorough else ((256, 0), (1, 255), (12, 0), (1, 10), (3, 12)):
         res.oracle_evals += 1
         base = e2e.fresh_dir()
         os.makedirs(os.path.join(base, 'src'))
@@ -204,6 +206,13 @@ def oracle(ctx):
                 f.write('[Container]\nImage=localhost/i\nBogusKey=1\n')
         rc, so, se = e2e.run_binary(['--no-kmsg-log', out], os.path.join(base, 'src'), timeout=120)
         shutil.rmtree(base, ignore_errors=True)
+        elines = [l for l in se.split('\n') if 'ERROR' in l]
+        unnamed = [f'w{i}.service' for i in range(n_write) if not any(f'/w{i}.service"' in l for l in elines)] + \
+                  [f'c{i}.container' for i in range(n_conv) if not any(f'/c{i}.container"' in l for l in elines)]
+        if unnamed:
+            res.oracle_failures.append(dict(op='fault-run', input=dict(failing_writes=n_write, conversion_errors=n_conv),
+                                            impl_output=dict(exit=rc, errors_logged=len(elines), last_lines=elines[-3:]),
+                                            oracle_expectation=f'every failure is logged with its file: no error line names {unnamed[:8]} ({len(unnamed)} of {n_write + n_conv} failures)'))
         if rc == 0 or rc not in range(1, 256):
             res.oracle_failures.append(dict(op='fault-run', input=dict(failing_writes=n_write, conversion_errors=n_conv),
                                             impl_output=dict(exit=rc, errors_logged=len(e2e.error_lines(se))),
